@@ -18,7 +18,7 @@ From Coq Require Import ZArith List Bool.
 Import ListNotations.
 From Mds Require Import Slice.EditModel.
 From Mds Require Import Mdiff.MdiffModel Mdiff.MdiffSpec Mdiff.MdiffProofs Mdiff.MdiffProofsRefuted Mdiff.MdiffCompose.
-From Mds Require Import Mdiff.MdiffHistModel Mdiff.FormatSpec Mdiff.MdiffPatchOk Mdiff.MdiffHistory.
+From Mds Require Import Mdiff.MdiffHistModel Mdiff.FormatSpec Mdiff.MdiffPatchOk Mdiff.MdiffHistory Mdiff.MdiffProofsSpans.
 Local Open Scope Z_scope.
 
 (* After New: every chunk is right; the chunks are ascending, disjoint, not adjacent; substituting
@@ -172,6 +172,17 @@ Theorem C13_unify_after_new : forall (T : Type) (L R : list T) (es : list (edit 
 Proof. exact unify_after_new_noop. Qed.
 Print Assumptions C13_unify_after_new.
 
+(* UnifyChunks on ANY chunk list (it is exported; no assumption on the chunks): if it does not
+   panic, the ranges of the result are [unified_spans cs] (Mdiff/MdiffSpec.v): every maximal run of
+   chunks each of which starts at or before the end of the one before becomes one chunk from the
+   start of the run's first chunk to the end of its last, on both sides; nothing else moves.
+   Together with C13_history this pins down Unify on a Diff: no panic, these ranges, every chunk
+   right, same non-context edits. *)
+Theorem C13_unify_spans : forall (T : Type) (cs cu : list (chunk T)),
+    unify_chunks cs = Ok cu -> map span_of cu = unified_spans cs.
+Proof. exact unify_chunks_spans. Qed.
+Print Assumptions C13_unify_spans.
+
 (* From the inputs alone (C11 model of slice.EditScript plugged in), on the Diff value: any
    history of calls on New(lhs, rhs) does not panic, keeps Edits/Left/Right, and the chunks satisfy
    all of the above; after New itself and after a history ending with Unify they are ascending,
@@ -245,6 +256,10 @@ Example C13_history_add_context_example :
   exists ca, run_ops Nat.eqb h_left h_right (new_chunks h_script) ([HUnify; HAdd 1] ++ [HAdd (-3)]) = Ok ca /\
              length ca = 2%nat.
 Proof. eexists. split; [vm_compute; reflexivity|reflexivity]. Qed.
+Example C13_unify_spans_example :
+  exists ca cu, run_ops Nat.eqb h_left h_right (new_chunks h_script) [HAdd 2] = Ok ca /\
+                unify_chunks ca = Ok cu /\ length ca = 2%nat /\ unified_spans ca = [(1, 6, 1, 6)].
+Proof. eexists. eexists. split; [vm_compute; reflexivity|]. split; [vm_compute; reflexivity|]. split; reflexivity. Qed.
 Example C13_unify_after_new_example : script_ok h_left h_right h_script /\ length (new_chunks h_script) = 2%nat.
 Proof. split; [left; split; reflexivity|reflexivity]. Qed.
 Example C13_history_composed_example :
